@@ -221,6 +221,23 @@ func runC09(c *an.Ctx) {
 			}
 		}
 	}
+	if !dataOK && dt.K == an.KSlice && dt.A[0].K == an.KAlloc {
+		// the array filled by hand: data[k] = byte(reading >> 8k)
+		if al, isAl := dt.A[0].Val.(*ssa.Alloc); isAl {
+			if vt, order, stores, ok := wfi.ShiftEncodedArray(al); ok && order == "LE" && len(stores) == 4 {
+				if hw.at != hw.inner {
+					vt = sfi.InstantiateTerm(vt, hw.at)
+				}
+				all := vt != nil && vt.Key() == valS.Key()
+				for _, st := range stores {
+					if !an.Dominates(st, hw.inner) {
+						all = false
+					}
+				}
+				dataOK = all
+			}
+		}
+	}
 	c.Check(dataOK, "ADDRESS", saver, write.Pos(), an.KeyOf(saver, "data"), "the 4 bytes written are the little-endian encoding of the reading", "data "+short(dt.Key()))
 	// address term: same in saver and loader, and exact on its domain
 	offS := hw.arg(p, saver, 2)
@@ -301,6 +318,9 @@ func writeOnce(c *an.Ctx, saver, loader *ssa.Function) (*ssa.Call, an.FactSet, *
 				}
 			}
 		}
+	}
+	if cur == nil {
+		cur = inlineSlotRead(c.P, saver, hw)
 	}
 	if cur == nil {
 		c.Violated("WRITE-ONCE", saver, saver.Pos(), an.KeyOf(saver, "reads-slot"), "the saver does not read the slot it is about to write", "no call of the history loader for the same timeslot")
@@ -641,4 +661,107 @@ func representableFact(fs an.FactSet, e *an.Term) bool {
 		}
 	}
 	return false
+}
+
+// inlineSlotRead: the saver reads the slot itself instead of calling the loader: a ReadAt of the history file at the byte
+// offset of the write, decoded with Uint32 from the buffer it filled. The value is that call, or the join of it (on the
+// way on which the read succeeded) with the constant 0 on ways on which the read ended with io.EOF (nothing stored yet).
+func inlineSlotRead(p *an.Program, saver *ssa.Function, hw *histWrite) *an.Term {
+	if hw == nil || hw.at != hw.inner {
+		return nil
+	}
+	sfi := p.Info(saver)
+	stripConv := func(t *an.Term) *an.Term {
+		for t.K == an.KConv && len(t.A) == 1 {
+			t = t.A[0]
+		}
+		return t
+	}
+	offW := stripConv(sfi.Term(hw.inner.Call.Args[2])).Key()
+	var readAt *ssa.Call
+	for _, b := range saver.Blocks {
+		for _, in := range b.Instrs {
+			if call, ok := in.(*ssa.Call); ok && an.CalleeName(&call.Call) == "(*os.File).ReadAt" && len(call.Call.Args) == 3 {
+				if stripConv(sfi.Term(call.Call.Args[2])).Key() == offW && sfi.Term(call.Call.Args[0]).Key() == sfi.Term(hw.inner.Call.Args[0]).Key() && an.Dominates(call, hw.inner) {
+					readAt = call
+				}
+			}
+		}
+	}
+	if readAt == nil {
+		return nil
+	}
+	bufKey := an.StripVolatile(sfi.Term(readAt.Call.Args[1]).Key())
+	rerr := sfi.FieldlessExtract(readAt, 1)
+	for _, b := range saver.Blocks {
+		for _, in := range b.Instrs {
+			dec, ok := in.(*ssa.Call)
+			if !ok || !strings.HasSuffix(an.CalleeName(&dec.Call), "littleEndian).Uint32") || !an.Dominates(readAt, dec) {
+				continue
+			}
+			if an.StripVolatile(sfi.Term(dec.Call.Args[len(dec.Call.Args)-1]).Key()) != bufKey {
+				continue
+			}
+			refs := dec.Referrers()
+			if refs == nil {
+				continue
+			}
+			for _, r := range *refs {
+				ph, isPhi := r.(*ssa.Phi)
+				if !isPhi {
+					continue
+				}
+				okAll := true
+				for i, e := range ph.Edges {
+					pred := ph.Block().Preds[i]
+					facts := an.FactSet{}
+					if n := len(pred.Instrs); n > 0 {
+						for k, f := range sfi.FactsAt(pred.Instrs[n-1]) {
+							facts[k] = f
+						}
+					}
+					for _, f := range sfi.EdgeFacts(pred, ph.Block()) {
+						facts[f.Key()] = f
+					}
+					switch {
+					case e == ssa.Value(dec):
+						if !facts.Has(an.NormBin("==", rerr, an.ConstTerm("nil")).Key()) {
+							okAll = false
+						}
+					case isConstTerm(sfi.Term(e), "0"):
+						eof := false
+						isEOF := func(t *an.Term) bool {
+							return t.K == an.KBin && t.S == "==" && strings.Contains(t.Key(), "io.EOF") && strings.Contains(t.Key(), rerr.Key())
+						}
+						for _, f := range facts {
+							if !f.Neg && isEOF(f.T) {
+								eof = true
+							}
+							// err == nil || err == io.EOF together with err != nil
+							if !f.Neg && f.T.K == an.KOr && len(f.T.A) == 2 {
+								for k := 0; k < 2; k++ {
+									o := f.T.A[1-k]
+									if isEOF(f.T.A[k]) && o.K == an.KBin && o.S == "==" && len(o.A) == 2 && facts.Has(an.NormBin("!=", o.A[0], o.A[1]).Key()) {
+										eof = true
+									}
+								}
+							}
+						}
+						if !eof {
+							okAll = false
+						}
+					default:
+						okAll = false
+					}
+				}
+				if okAll {
+					return sfi.Term(ph)
+				}
+			}
+			if sfi.FactsAt(dec).Has(an.NormBin("==", rerr, an.ConstTerm("nil")).Key()) {
+				return sfi.Term(dec)
+			}
+		}
+	}
+	return nil
 }
